@@ -141,7 +141,7 @@ class Verdicts:
     def witness(self, name):
         self.witnesses[name] = self.witnesses.get(name, 0) + 1
 
-    def check(self, ex, label, formula, assumptions=(), detail=None, scenario=None):
+    def check(self, ex, label, formula, assumptions=(), detail=None, scenario=None, prefer=None):
         """obligation: path condition /\\ assumptions  =>  formula   (decided by z3)"""
         self.obligations += 1
         f = formula if not isinstance(formula, bool) else z3.BoolVal(formula)
@@ -156,6 +156,15 @@ class Verdicts:
             self.inconclusive.append(f"{label}: solver unknown")
             return False
         model = ex.solver.model()
+        prefs = None
+        if prefer is not None:
+            # among the counterexamples, prefer one that has a concrete native counterpart
+            try:
+                prefs = prefer()
+                if prefs and ex.solver.check(*assumptions, z3.Not(f), *prefs) == z3.sat:
+                    model = ex.solver.model()
+            except Exception:
+                pass
         sc = None
         if scenario is not None:
             try:
